@@ -2,10 +2,10 @@
    Statements only: each theorem is closed by [exact] of a lemma of Proofs/P_realise.v, P_modal.v, P_modal_R.v.
    Numerical kernels (SVD, QR, triangular inverse, pseudo-inverse, eigen-solver, complex log) appear only as
    universally quantified results constrained by their contracts. *)
-From Coq Require Import String List Arith Lia Ring Field ZArith QArith Qcanon Reals.
-From PyOMA.Base Require Import Carrier FMat Cplx Show.
+From Coq Require Import String List Arith Lia Ring Field ZArith QArith Qcanon Reals Permutation.
+From PyOMA.Base Require Import Carrier FMat Cplx Show EigCount.
 From PyOMA.Model Require Import M_hankel M_realise M_modal.
-From PyOMA.Proofs Require Import P_realise P_modal P_modal_R.
+From PyOMA.Proofs Require Import P_realise P_modal P_modal_R P_eigcount_c01.
 Import ListNotations.
 
 Section S.
@@ -242,9 +242,74 @@ Theorem C01_mode_recovery : forall l n (A Cm Ah Ch T Ti:fmat R) (clog:R*R -> R*R
      exists v, eigpair (Cplx.C R) (COps ROps_c01) n (cemb R ROps_c01 A) lam' v).
 Proof. exact C01_mode_recovery. Qed.
 
-(* What is NOT proved (asserts nothing): the eigen-solver returns every eigenvalue with its algebraic multiplicity, so that
-   the column of order 2m of the pole table holds EXACTLY m conjugate pairs (needs "an n x n matrix has at most n
-   eigenvalues counted with multiplicity"); and the nearest-pole extraction at that order (property C11). *)
+(* (13) MULTIPLICITY.  Carrier: commutative ring without zero divisors, 1 <> 0, decidable equality, formally real
+   (a^2 + b^2 = 0 -> a = 0), complexified by Base/Cplx.v - Qc and the (classical) reals are instances.
+   True system with a complete modal basis: A Phi = Phi diag(lam), Phi two-sided invertible, lam_0 .. lam_{n-1} pairwise different.
+   Eigen-solver contract on the identified A_hat: A_hat V = V diag(d), W V = I (a full eigenvector matrix).
+   Then the pole list [d_0 .. d_{n-1}] at order n is a Permutation of the true pole list (each true pole exactly once,
+   nothing else, no repetition); the correspondence is an explicit bijection sg, and column k of C_hat V is a non-zero
+   multiple of the true observed shape C Phi[:, sg k]; and if the true poles are m conjugate pairs (z, conj z) the column
+   of order n = 2m of the pole table holds EXACTLY those m conjugate pairs. *)
+Section M.
+Variable R:Type. Variable K:Ops R.
+Hypothesis Rth : ring_theory (o0 K) (o1 K) (oadd K) (omul K) (osub K) (oopp K) (@eq R).
+Hypothesis Hint : forall a b:R, omul K a b = o0 K -> a = o0 K \/ b = o0 K.
+Hypothesis H10 : o1 K <> o0 K.
+Hypothesis Rdec : forall x y:R, {x = y} + {x <> y}.
+Hypothesis Hreal : forall a b:R, oadd K (omul K a a) (omul K b b) = o0 K -> a = o0 K.
+
+Theorem C01_multiplicity : forall l n (A Cm Ah Ch T Ti:fmat R) (Phi Phii V W:fmat (Cplx.C R)) (lam d:nat -> Cplx.C R),
+  similar_pair R K l n A Cm Ah Ch T Ti ->
+  feq n n (fmul (COps K) n (cemb R K A) Phi) (fmul (COps K) n Phi (fdiag (COps K) lam)) ->
+  feq n n (fmul (COps K) n Phi Phii) (fid (COps K)) -> feq n n (fmul (COps K) n Phii Phi) (fid (COps K)) ->
+  (forall i j, (i < n)%nat -> (j < n)%nat -> i <> j -> lam i <> lam j) ->
+  feq n n (fmul (COps K) n (cemb R K Ah) V) (fmul (COps K) n V (fdiag (COps K) d)) ->
+  feq n n (fmul (COps K) n W V) (fid (COps K)) ->
+  Permutation (tab n d) (tab n lam) /\ NoDup (tab n d) /\
+  (exists (sg:nat -> nat) (c:nat -> Cplx.C R),
+     (forall k, (k < n)%nat -> (sg k < n)%nat) /\
+     (forall k k', (k < n)%nat -> (k' < n)%nat -> sg k = sg k' -> k = k') /\
+     (forall i, (i < n)%nat -> exists k, (k < n)%nat /\ sg k = i) /\
+     (forall k, (k < n)%nat -> d k = lam (sg k)) /\
+     (forall k, (k < n)%nat -> c k <> c0 K /\
+        forall i, (i < l)%nat -> fmul (COps K) n (cemb R K Ch) V i k = cmul K (fmul (COps K) n (cemb R K Cm) Phi i (sg k)) (c k))) /\
+  (forall mus:list (Cplx.C R), Permutation (tab n lam) (flat_map (fun z => [z; cconj K z]) mus) ->
+     n = (2 * length mus)%nat /\ Permutation (tab n d) (flat_map (fun z => [z; cconj K z]) mus)).
+Proof. exact (pole_multiplicity R K Rth Hint H10 Rdec Hreal). Qed.
+
+(* ... and A_hat has no other eigenvalue at all: ANY eigen-pair of A_hat (not only those of the returned decomposition)
+   carries a true pole - the inclusion stated by C01_full_statement below, under the modal-basis witness *)
+Theorem C01_no_spurious_pole : forall l n (A Cm Ah Ch T Ti:fmat R) (Phi Phii:fmat (Cplx.C R)) (lam:nat -> Cplx.C R),
+  similar_pair R K l n A Cm Ah Ch T Ti ->
+  feq n n (fmul (COps K) n (cemb R K A) Phi) (fmul (COps K) n Phi (fdiag (COps K) lam)) ->
+  feq n n (fmul (COps K) n Phi Phii) (fid (COps K)) -> feq n n (fmul (COps K) n Phii Phi) (fid (COps K)) ->
+  forall (mu:Cplx.C R) (w:fmat (Cplx.C R)),
+  eigpair (Cplx.C R) (COps K) n (cemb R K Ah) mu w -> exists i, (i < n)%nat /\ mu = lam i.
+Proof. exact (no_spurious_pole R K Rth Hint Rdec Hreal). Qed.
+End M.
+
+(* the same at the real numbers (the carrier hypotheses hold classically) *)
+Theorem C01_multiplicity_R : forall l n (A Cm Ah Ch T Ti:fmat R) (Phi Phii V W:fmat (Cplx.C R)) (lam d:nat -> Cplx.C R),
+  similar_pair R ROps_c01 l n A Cm Ah Ch T Ti ->
+  feq n n (fmul (COps ROps_c01) n (cemb R ROps_c01 A) Phi) (fmul (COps ROps_c01) n Phi (fdiag (COps ROps_c01) lam)) ->
+  feq n n (fmul (COps ROps_c01) n Phi Phii) (fid (COps ROps_c01)) -> feq n n (fmul (COps ROps_c01) n Phii Phi) (fid (COps ROps_c01)) ->
+  (forall i j, (i < n)%nat -> (j < n)%nat -> i <> j -> lam i <> lam j) ->
+  feq n n (fmul (COps ROps_c01) n (cemb R ROps_c01 Ah) V) (fmul (COps ROps_c01) n V (fdiag (COps ROps_c01) d)) ->
+  feq n n (fmul (COps ROps_c01) n W V) (fid (COps ROps_c01)) ->
+  Permutation (tab n d) (tab n lam) /\ NoDup (tab n d) /\
+  (forall mus:list (Cplx.C R), Permutation (tab n lam) (flat_map (fun z => [z; cconj ROps_c01 z]) mus) ->
+     n = (2 * length mus)%nat /\ Permutation (tab n d) (flat_map (fun z => [z; cconj ROps_c01 z]) mus)).
+Proof.
+  intros l n A Cm Ah Ch T Ti Phi Phii V W lam d Hs H1 H2 H3 H4 H5 H6.
+  destruct (pole_multiplicity_R l n A Cm Ah Ch T Ti Phi Phii V W lam d Hs H1 H2 H3 H4 H5 H6) as [Ha [Hb [_ Hc]]].
+  exact (conj Ha (conj Hb Hc)).
+Qed.
+
+(* What is NOT proved (asserts nothing).  C01_multiplicity / C01_no_spurious_pole take the two-sided invertible modal matrix
+   Phi of the true system as a witness.  The statement below has no such witness: it only says that the true A has n
+   pairwise different eigenvalues.  Missing for it: "eigenvectors of pairwise different eigenvalues are independent" and
+   "n independent vectors of K^n form a two-sided invertible matrix" (dimension theory), which would produce Phi, Phii.
+   Also not proved here: the nearest-pole extraction at that order (property C11). *)
 Definition C01_full_statement : Prop :=
   forall l n (A Cm Ah Ch T Ti:fmat R) (lams:list (Cplx.C R)),
     similar_pair R ROps_c01 l n A Cm Ah Ch T Ti ->
@@ -275,6 +340,9 @@ Print Assumptions C01_unity_norm_scale.
 Print Assumptions C01_ac2mp_exact.
 Print Assumptions C01_ac2mp_modal.
 Print Assumptions C01_mode_recovery.
+Print Assumptions C01_multiplicity.
+Print Assumptions C01_no_spurious_pole.
+Print Assumptions C01_multiplicity_R.
 
 (* non-vacuity (1): a rational instance (l=1, br=1, n=1, 3-4-5 rotation as singular vectors) meets every hypothesis of
    C01_realisation_similar_fast; the identified A_hat is the true 3/4 and T = 2 *)
@@ -292,3 +360,22 @@ Example C01_example_modal :
   show_mode [[q 1 2; q 1 4];[q (-1) 4; q 1 2]] [[q 1 1; q 2 1];[q 0 1; q 3 1];[q 1 1; q 1 1]] (q 1 2, q 1 4) [(q 1 1, q 0 1); (q 0 1, q 1 1)]
   = "T|2/3,-1/3 1/1,0/1 1/3,-1/3|9/1 5/1"%string.
 Proof. vm_compute. reflexivity. Qed.
+
+(* non-vacuity (3): the hypotheses of C01_multiplicity are met by a Gaussian-rational instance - true A = [[1/2,1/4],[-1/4,1/2]]
+   (poles 1/2 +- i/4, modes (1, +-i)), identified in the basis T = [[1,1],[0,1]], and a solver output that lists the conjugate
+   pole first with rescaled eigenvectors; the returned pole list is the true one in the other order *)
+Example C01_example_multiplicity :
+  similar_pair Qc QcOps 1 2 ec1_A ec1_C ec1_Ah ec1_Ch ec1_T ec1_Ti /\
+  feq 2 2 (fmul (COps QcOps) 2 (cemb Qc QcOps ec1_A) ec1_Phi) (fmul (COps QcOps) 2 ec1_Phi (fdiag (COps QcOps) ec1_lam)) /\
+  feq 2 2 (fmul (COps QcOps) 2 ec1_Phi ec1_Phii) (fid (COps QcOps)) /\
+  feq 2 2 (fmul (COps QcOps) 2 ec1_Phii ec1_Phi) (fid (COps QcOps)) /\
+  (forall i j, (i < 2)%nat -> (j < 2)%nat -> i <> j -> ec1_lam i <> ec1_lam j) /\
+  feq 2 2 (fmul (COps QcOps) 2 (cemb Qc QcOps ec1_Ah) ec1_V) (fmul (COps QcOps) 2 ec1_V (fdiag (COps QcOps) ec1_d)) /\
+  feq 2 2 (fmul (COps QcOps) 2 ec1_W ec1_V) (fid (COps QcOps)) /\
+  tab 2 ec1_d = [ec1_lam 1%nat; ec1_lam 0%nat].
+Proof. exact ec1_hyps. Qed.
+(* ... and so are the carrier hypotheses, at the canonical rationals *)
+Example C01_example_carrier :
+  (forall a b:Qc, omul QcOps a b = o0 QcOps -> a = o0 QcOps \/ b = o0 QcOps) /\ o1 QcOps <> o0 QcOps /\
+  (forall a b:Qc, oadd QcOps (omul QcOps a a) (omul QcOps b b) = o0 QcOps -> a = o0 QcOps).
+Proof. exact (conj qc_integral (conj qc_one_neq_zero qc_formally_real)). Qed.
